@@ -1,6 +1,10 @@
 package main
 
 import (
+	"fmt"
+	"go/types"
+	"strings"
+
 	"golang.org/x/tools/go/ssa"
 	"golang.org/x/tools/go/ssa/ssautil"
 )
@@ -14,4 +18,161 @@ func ssautilAll(prog *ssa.Program) map[*ssa.Function]bool {
 	m := ssautil.AllFunctions(prog)
 	allFnCache[prog] = m
 	return m
+}
+
+
+// checkMustPassAfter: every path that LEAVES an instruction satisfying src and reaches an instruction
+// satisfying target goes through one satisfying must. Unlike checkMustPass the source block itself is not
+// a target (the path starts after the source instruction); a target later in the source's own block, or
+// in a block reachable without a must-block, is a bypass. Decided as SMT reachability over the CFG.
+func checkMustPassAfter(prog *ssa.Program, fnName string, src, must, target func(ssa.Instruction) bool, ev map[string]interface{}, key string) (ok bool, inconclusive string, witness string) {
+	fn := findFuncByString(prog, fnName)
+	if fn == nil || fn.Blocks == nil {
+		return false, "function " + fnName + " not found", ""
+	}
+	idx := func(b *ssa.BasicBlock, p func(ssa.Instruction) bool, from int) int {
+		for i := from; i < len(b.Instrs); i++ {
+			if p(b.Instrs[i]) {
+				return i
+			}
+		}
+		return -1
+	}
+	var srcBlocks []*ssa.BasicBlock
+	isMust := map[int]bool{}
+	for _, b := range fn.Blocks {
+		if idx(b, must, 0) >= 0 {
+			isMust[b.Index] = true
+		}
+		if si := idx(b, src, 0); si >= 0 {
+			srcBlocks = append(srcBlocks, b)
+			// a second target behind the source in the same block, without a must in between
+			if ti := idx(b, target, si+1); ti >= 0 {
+				if mi := idx(b, must, si+1); mi < 0 || mi > ti {
+					return false, "", fmt.Sprintf("%s: block %d routes twice in a row", fnName, b.Index)
+				}
+			}
+		}
+	}
+	if len(srcBlocks) == 0 || len(isMust) == 0 {
+		return false, fmt.Sprintf("anchors not found in %s (sources %d, required steps %d)", fnName, len(srcBlocks), len(isMust)), ""
+	}
+	// reachability from the successors of the source blocks, must-blocks removed (a target inside a must-block
+	// counts only if it precedes the must instruction)
+	var sb strings.Builder
+	sb.WriteString("(set-logic ALL)\n")
+	for _, b := range fn.Blocks {
+		fmt.Fprintf(&sb, "(declare-const r%d Bool)\n(declare-const l%d Int)\n", b.Index, b.Index)
+	}
+	start := map[int]bool{}
+	for _, sbk := range srcBlocks {
+		if isMust[sbk.Index] && idx(sbk, must, idx(sbk, src, 0)+1) >= 0 {
+			continue // the must follows the source inside its block
+		}
+		for _, su := range sbk.Succs {
+			start[su.Index] = true
+		}
+	}
+	var ts []string
+	for _, b := range fn.Blocks {
+		ti := idx(b, target, 0)
+		mi := idx(b, must, 0)
+		entryOK := !(mi >= 0 && (ti < 0 || mi < ti)) // entering the block and reaching its target before any must
+		var alts []string
+		if start[b.Index] {
+			alts = append(alts, fmt.Sprintf("(= l%d 0)", b.Index))
+		}
+		for _, p := range b.Preds {
+			if isMust[p.Index] {
+				continue // leaving a must-block means the must was passed
+			}
+			alts = append(alts, fmt.Sprintf("(and r%d (< l%d l%d))", p.Index, p.Index, b.Index))
+		}
+		fmt.Fprintf(&sb, "(assert (=> r%d (or %s false)))\n(assert (>= l%d 0))\n", b.Index, strings.Join(alts, " "), b.Index)
+		if ti >= 0 && entryOK {
+			ts = append(ts, fmt.Sprintf("r%d", b.Index))
+		}
+	}
+	fmt.Fprintf(&sb, "(assert (or %s false))\n(check-sat)\n", strings.Join(ts, " "))
+	res := runOneShot("z3-new", sb.String(), 30000)
+	ev[key] = map[string]interface{}{"blocks": len(fn.Blocks), "sources": len(srcBlocks), "required_blocks": len(isMust), "bypass_candidates": len(ts), "result": res}
+	switch res {
+	case "unsat":
+		return true, "", ""
+	case "sat":
+		return false, "", fmt.Sprintf("%s: a path from a routing call reaches another routing call without the required step in between", fnName)
+	}
+	return false, "solver " + res + " on must-pass query of " + fnName, ""
+}
+
+// checkHubArgs: in fn, every call of a peers.Hub method passes as session id a load of <sess>.ID of one
+// and the same local (stored exactly once), and BroadcastExcept excepts the local named peerID.
+func checkHubArgs(prog *ssa.Program, fnName string, ev map[string]interface{}) (violation string, inconclusive string) {
+	fn := findFuncByString(prog, fnName)
+	if fn == nil || fn.Blocks == nil {
+		return "", "function " + fnName + " not found"
+	}
+	var base ssa.Value
+	calls := 0
+	for _, b := range fn.Blocks {
+		for _, ins := range b.Instrs {
+			c, ok := ins.(*ssa.Call)
+			if !ok {
+				continue
+			}
+			n := calleeName(&c.Call)
+			if !strings.Contains(n, "peers.Hub).") {
+				continue
+			}
+			m := n[strings.LastIndex(n, ".")+1:]
+			switch m {
+			case "SendTo", "BroadcastExcept", "Broadcast", "Add", "List", "CloseSession":
+			default:
+				continue
+			}
+			calls++
+			if len(c.Call.Args) < 2 {
+				return "", "unexpected arity of " + n
+			}
+			ld, ok := c.Call.Args[1].(*ssa.UnOp)
+			if !ok {
+				return fmt.Sprintf("%s: session argument of %s is not a load of the session's ID field (%s)", fnName, m, c.Call.Args[1]), ""
+			}
+			fa, ok := ld.X.(*ssa.FieldAddr)
+			if !ok {
+				return fmt.Sprintf("%s: session argument of %s is not a load of the session's ID field (%s)", fnName, m, ld.X), ""
+			}
+			st, ok := fa.X.Type().Underlying().(*types.Pointer).Elem().Underlying().(*types.Struct)
+			if !ok || st.Field(fa.Field).Name() != "ID" || !strings.HasSuffix(fa.X.Type().String(), "session.Session") {
+				return fmt.Sprintf("%s: session argument of %s is %s, not <session>.ID", fnName, m, fa), ""
+			}
+			if base == nil {
+				base = fa.X
+			} else if base != fa.X {
+				return fmt.Sprintf("%s: %s names a different session value than the other hub calls", fnName, m), ""
+			}
+			if m == "BroadcastExcept" {
+				ex, ok := c.Call.Args[2].(*ssa.UnOp)
+				if !ok || !(strings.Contains(valueComment(ex.X), "peerID") || debugName(ex) == "peerID" || strings.Contains(ex.X.Name()+ex.X.String(), "peerID")) {
+					return fmt.Sprintf("%s: BroadcastExcept does not except the connection's own peer id (%s)", fnName, c.Call.Args[2]), ""
+				}
+			}
+		}
+	}
+	if calls == 0 || base == nil {
+		return "", "no hub calls found in " + fnName
+	}
+	stores := 0
+	if refs := base.Referrers(); refs != nil {
+		for _, r := range *refs {
+			if s, ok := r.(*ssa.Store); ok && s.Addr == base {
+				stores++
+			}
+		}
+	}
+	ev["cfg:handleWebSocket hub-arguments"] = map[string]interface{}{"hub_calls": calls, "stores_to_session_variable": stores}
+	if stores != 1 {
+		return fmt.Sprintf("%s: the session variable is assigned %d times", fnName, stores), ""
+	}
+	return "", ""
 }
